@@ -5,6 +5,7 @@
 import GM.Proof.QuoteSimOpen
 import GM.Proof.QuoteSimStats
 import GM.Proof.QuoteSimMid
+import GM.Proof.QuoteSimStatsG
 
 namespace GM.Blocks
 open GM GM.Text GM.Spec GM.Proof.Reader
@@ -15,12 +16,13 @@ theorem blockAt_q0 (l : List Block) : blockAt (bqBlock :: l.map shB) 0 = .ok bqB
 
 theorem closeLoopAll_sim {src al} (ps : PS src al) (fr : Frames al) (l : List Block) (hl : OKB al l) :
     ∀ (n : Nat) {k ls p} {sA sB : St}, SR src k ls p sA sB → AInv al sA.pc sA.nodes → PKL l sA.nodes →
-      S2 (fun _ _ sA' sB' => SR src k ls p sA' sB' ∧ AInv al sA'.pc sA'.nodes)
+      FEc al sA.nodes sB.nodes →
+      S2 (fun _ _ sA' sB' => SR src k ls p sA' sB' ∧ AInv al sA'.pc sA'.nodes ∧ FEc al sA'.nodes sB'.nodes)
         (closeLoop l 0 n sA) (closeLoop (bqBlock :: l.map shB) 0 (n + 1) sB) := by
   intro n
   induction n with
   | zero =>
-    intro k ls p sA sB h ha _
+    intro k ls p sA sB h ha _ hfe
     -- A does nothing; B closes its Blockquote (node 1, whose parent is the Document): nothing happens
     have hroot := h.n.node 0
     have hp := hroot.parent
@@ -41,9 +43,9 @@ theorem closeLoopAll_sim {src al} (ps : PS src al) (fr : Frames al) (l : List Bl
       rfl
     rw [e]
     unfold closeLoop
-    exact S2.pure ⟨h, ha⟩
+    exact S2.pure ⟨h, ha, hfe⟩
   | succ n ih =>
-    intro k ls p sA sB h ha hpk
+    intro k ls p sA sB h ha hpk hfe
     unfold closeLoop
     refine S2.bind (P := fun a b sA' sB' => b = shB a ∧ a ∈ l ∧ sA' = sA ∧ sB' = sB) (S2.liftE (fun a ha' => ?_))
       (fun a b sA1 sB1 hq => ?_)
@@ -66,14 +68,18 @@ theorem closeLoopAll_sim {src al} (ps : PS src al) (fr : Frames al) (l : List Bl
       rw [hsome]
       by_cases hs : x.parent.isSome = true
       · rw [if_pos hs, if_pos hs]
-        refine S2.bind (S2.andL (ps.close a.bp hal k ls p a.node sA sB h hn0 ha (fun hbp => hpk.nr hm hbp))
+        have hnse : al .setext = false → a.bp ≠ .setext := fun hns e => by rw [e, hns] at hal; cases hal
+        refine S2.bind (S2.andL (S2.withFE h hfe (ps.close a.bp hal k ls p a.node sA sB h hn0 ha (fun hbp => hpk.nr hm hbp) hfe)
+            (fun hns _ _ e => ⟨bpn_of_bpClose a.bp (hnse hns) a.node e, chn_of_bpClose a.bp (hnse hns) a.node e⟩)
+            (fun hns _ _ e => bpn_of_bpClose a.bp (hnse hns) (a.node + 1) e))
           (F := fun _ sA' => AInv al sA'.pc sA'.nodes ∧ KGn sA.nodes sA'.nodes)
           (fun _ sA' e => ⟨fr.close _ _ _ _ _ e hal hn0 ha, fr.closeKG _ _ _ _ _ e hal⟩))
-          (fun _ _ sA3 sB3 h3 => ih h3.1 h3.2.1 (hpk.kg h3.2.2))
-      · rw [if_neg hs, if_neg hs]; exact ih h ha hpk
+          (fun _ _ sA3 sB3 h3 => ih h3.1.1 h3.2.1 (hpk.kg h3.2.2) h3.1.2)
+      · rw [if_neg hs, if_neg hs]; exact ih h ha hpk hfe
 
 /-- the relation between the two FINAL node stores, with the unary invariant of A's store -/
-def FRel (src : Bytes) (al : BP → Bool) (nA nB : List Node) : Prop := StoreRel src nA nB ∧ UStoreL nA ∧ NK al nA
+def FRel (src : Bytes) (al : BP → Bool) (nA nB : List Node) : Prop :=
+  StoreRel src nA nB ∧ UStoreL nA ∧ NK al nA ∧ FEc al nA nB
 
 /-- closeBlocks(lastIndex, 0) at the end of the source: afterwards nothing is open on either side -/
 theorem closeBlocksAll_sim {src al} (ps : PS src al) (fr : Frames al) {k ls p} {sA sB : St} (h : DR src al k ls p sA sB)
@@ -88,8 +94,8 @@ theorem closeBlocksAll_sim {src al} (ps : PS src al) (fr : Frames al) {k ls p} {
   rw [hc.opened]
   have en : (L + 1 - 0 + 1).toNat = (L - 0 + 1).toNat + 1 := by omega
   rw [en]
-  refine S2.bind (closeLoopAll_sim ps fr sA.pc.opened h.a.opened _ h.s h.a h.a.pk) (fun _ _ sA2 sB2 hq => ?_)
-  obtain ⟨h2, ha2⟩ := hq
+  refine S2.bind (closeLoopAll_sim ps fr sA.pc.opened h.a.opened _ h.s h.a h.a.pk h.f) (fun _ _ sA2 sB2 hq => ?_)
+  obtain ⟨h2, ha2, hfe2⟩ := hq
   have e0 : (((bqBlock :: sA.pc.opened.map shB).length : Nat) : Int) = (sA.pc.opened.length : Int) + 1 := by
     simp only [List.length_cons, List.length_map]; omega
   rw [e0]
@@ -107,7 +113,7 @@ theorem closeBlocksAll_sim {src al} (ps : PS src al) (fr : Frames al) {k ls p} {
   have l2 : liftE (.ok [] : Except Panic (List Block)) sB2 = .ok ([], sB2) := rfl
   rw [bind_run l1, bind_run l2]
   unfold modPc
-  exact S2.ok ⟨h2.n, ha2.u, ha2.nk⟩
+  exact S2.ok ⟨h2.n, ha2.u, ha2.nk, hfe2⟩
 
 /-! ### the fall-through of the per-line loop: openBlocks below block `i`, then close what is left over -/
 
@@ -135,7 +141,8 @@ theorem slotAfter_q (old new : List Block) (L : Int) (hL : 0 ≤ L) :
 /-- the result relation of the per-line loop -/
 def LLRel (src : Bytes) (al : BP → Bool) (k ls : Nat) (lo : Int) (a b : LineOutcome × List LineStat) (sA sB : St) : Prop :=
   b.1 = a.1 ∧ match a.1 with
-    | .next => (∃ p', DR src al k ls p' sA sB) ∧ (FL src → ∃ j, lo ≤ j ∧ CUR (k : Int) j a.2 b.2)
+    | .next => (∃ p', DR src al k ls p' sA sB) ∧ (FL src → ∃ j, lo ≤ j ∧ CUR (k : Int) j a.2 b.2) ∧
+        (∃ j, lo ≤ j ∧ CURG (k : Int) j a.2 b.2)
     | .eof => FRel src al sA.nodes sB.nodes
 
 theorem LLRel.mono {src al k ls} {lo lo' : Int} (hle : lo ≤ lo') {a b sA sB} (h : LLRel src al k ls lo' a b sA sB) :
@@ -146,7 +153,8 @@ theorem LLRel.mono {src al k ls} {lo lo' : Int} (hle : lo ≤ lo') {a b sA sB} (
   | eof => rw [ha] at h2; exact h2
   | next =>
     rw [ha] at h2
-    exact ⟨h2.1, fun hfl => by obtain ⟨j, hj, hc⟩ := h2.2 hfl; exact ⟨j, by omega, hc⟩⟩
+    exact ⟨h2.1, (fun hfl => by obtain ⟨j, hj, hc⟩ := h2.2.1 hfl; exact ⟨j, by omega, hc⟩),
+      (by obtain ⟨j, hj, hc⟩ := h2.2.2; exact ⟨j, by omega, hc⟩)⟩
 
 /-- the least level the statistics have reached when the per-line loop ends: one more than the start when there is a block to visit -/
 def loOf (i : Int) : List Block → Int
@@ -157,7 +165,9 @@ theorem loOf_ge (i : Int) (l : List Block) : i ≤ loOf i l := by cases l <;> si
 
 theorem llOpen_sim {src al} (ps : PS src al) (fr : Frames al) (ot : OT src) (ns : NS src) (tr : TrigOK src al)
     (ob : List Block) (L i : Int) (bA bB : Bool) (stA stB : List LineStat) (t : Nat) {k ls p} {sA sB : St}
-    (h : DRL src al k ls p sA sB) (hb : FL src → bB = bA) (lo : Int) (hst : FL src → ∃ j, lo ≤ j ∧ CUR (k : Int) j stA stB) :
+    (h : DRL src al k ls p sA sB) (hb : FL src → bB = bA) (lo : Int) (hst : FL src → ∃ j, lo ≤ j ∧ CUR (k : Int) j stA stB)
+    (hstg : ∃ j, lo ≤ j ∧ CURG (k : Int) j stA stB) (hq : t < sA.nodes.length)
+    (hbq : al .setext = false → (bB = bA ∨ t = 0)) :
     S2 (LLRel src al k ls lo) (llOpen ob L i bA stA t sA)
       (llOpen (bqBlock :: ob.map shB) (L + 1) (i + 1) bB stB (t + 1) sB) := by
   unfold llOpen
@@ -168,7 +178,7 @@ theorem llOpen_sim {src al} (ps : PS src al) (fr : Frames al) (ot : OT src) (ns 
   obtain ⟨hb, hL, e1, e2⟩ := hq
   subst hb
   rw [e1, e2]
-  refine S2.bind (openBlocks_sim ps fr ot ns tr bA bB hb t h) (fun ra rb sA2 sB2 hq => ?_)
+  refine S2.bind (openBlocks_sim ps fr ot ns tr bA bB hb t h hq hbq) (fun ra rb sA2 sB2 hq => ?_)
   obtain ⟨hr, ⟨p', h2⟩, _⟩ := hq
   rw [hr]
   by_cases hc : (ra != OpenResult.paragraphContinuation) = true
@@ -190,9 +200,9 @@ theorem llOpen_sim {src al} (ps : PS src al) (fr : Frames al) (ot : OT src) (ns 
       split <;> omega
     rw [hidx]
     refine S2.bind (closeBlocks_sim ps fr h2 _ i) (fun _ _ sA4 sB4 h4 => ?_)
-    exact S2.pure ⟨rfl, ⟨p', h4.1⟩, hst⟩
+    exact S2.pure ⟨rfl, ⟨p', h4.1⟩, hst, hstg⟩
   · rw [if_neg hc, if_neg hc]
-    exact S2.pure ⟨rfl, ⟨p', h2⟩, hst⟩
+    exact S2.pure ⟨rfl, ⟨p', h2⟩, hst, hstg⟩
 
 def llFall (q : Nat) (ob : List Block) (L i : Int) (blank : Bool) (blankLines : List LineStat) :
     M (LineOutcome × List LineStat) :=
@@ -206,7 +216,9 @@ def llFall (q : Nat) (ob : List Block) (L i : Int) (blank : Bool) (blankLines : 
 
 theorem llFall_sim {src al} (ps : PS src al) (fr : Frames al) (ot : OT src) (ns : NS src) (tr : TrigOK src al)
     (ob : List Block) (L i : Int) (hi : 0 ≤ i) (bA bB : Bool) (stA stB : List LineStat) {k ls p} {sA sB : St}
-    (h : DRL src al k ls p sA sB) (hb : FL src → bB = bA) (lo : Int) (hst : FL src → ∃ j, lo ≤ j ∧ CUR (k : Int) j stA stB) :
+    (h : DRL src al k ls p sA sB) (hb : FL src → bB = bA) (lo : Int) (hst : FL src → ∃ j, lo ≤ j ∧ CUR (k : Int) j stA stB)
+    (hstg : ∃ j, lo ≤ j ∧ CURG (k : Int) j stA stB) (hob : ∀ b ∈ ob, b.node < sA.nodes.length)
+    (hbe : al .setext = false → bB = bA) :
     S2 (LLRel src al k ls lo) (llFall 0 ob L i bA stA sA)
       (llFall 0 (bqBlock :: ob.map shB) (L + 1) (i + 1) bB stB sB) := by
   unfold llFall
@@ -216,16 +228,16 @@ theorem llFall_sim {src al} (ps : PS src al) (fr : Frames al) (ot : OT src) (ns 
   rw [if_pos hB]
   by_cases hA : (i != 0) = true
   · rw [if_pos hA]
-    refine S2.bind (P := fun a b sA' sB' => b = shB a ∧ sA' = sA ∧ sB' = sB) (S2.liftE (fun a ha => ?_))
+    refine S2.bind (P := fun a b sA' sB' => b = shB a ∧ a ∈ ob ∧ sA' = sA ∧ sB' = sB) (S2.liftE (fun a ha => ?_))
       (fun a b sA1 sB1 hq => ?_)
-    · obtain ⟨e, _, _⟩ := blockAt_q ob _ a ha
-      refine ⟨shB a, ?_, rfl, rfl, rfl⟩
+    · obtain ⟨e, hmem, _⟩ := blockAt_q ob _ a ha
+      refine ⟨shB a, ?_, rfl, hmem, rfl, rfl⟩
       rw [show i + 1 - 1 = i - 1 + 1 by omega]; exact e
-    obtain ⟨hb, e1, e2⟩ := hq
+    obtain ⟨hb, hmem, e1, e2⟩ := hq
     subst hb
     rw [e1, e2]
     simp only [pure_bind, shB]
-    exact llOpen_sim ps fr ot ns tr ob L i bA bB stA stB a.node h hb lo hst
+    exact llOpen_sim ps fr ot ns tr ob L i bA bB stA stB a.node h hb lo hst hstg (hob a hmem) (fun hns => .inl (hbe hns))
   · rw [if_neg hA]
     have hi0 : i = 0 := by
       simp only [bne_iff_ne, ne_eq, Decidable.not_not] at hA; exact hA
@@ -233,7 +245,7 @@ theorem llFall_sim {src al} (ps : PS src al) (fr : Frames al) (ot : OT src) (ns 
     have e : liftE (blockAt (bqBlock :: ob.map shB) ((0 : Int) + 1 - 1)) sB = .ok (bqBlock, sB) := rfl
     rw [bind_run e]
     simp only [pure_bind, bqBlock]
-    exact llOpen_sim ps fr ot ns tr ob L 0 bA bB stA stB 0 h hb lo hst
+    exact llOpen_sim ps fr ot ns tr ob L 0 bA bB stA stB 0 h hb lo hst hstg h.n.pos (fun _ => .inr rfl)
 
 /-! ### the loop over the opened blocks of A (levels `i`, `i+1`, …) against B's levels `i+1`, … -/
 
@@ -252,33 +264,41 @@ theorem lineLoop_sim {src al} (ps : PS src al) (fr : Frames al) (ot : OT src) (n
     ∀ (rest : List Block), (∀ b ∈ rest, b ∈ ob) → ∀ (i : Int), 0 ≤ i → ∀ (stA stB : List LineStat) {k ls p : Nat}
       {sA sB : St}, DR src al k ls p sA sB → sA.pc.opened = ob → L = (ob.length : Int) - 1 →
       (FL src → CUR (k : Int) i stA stB) → (i = 0 → p = ls) → ∀ (pre : List Block), Sh.MidA src ob pre rest i sA →
+      CURG (k : Int) i stA stB →
       S2 (LLRel src al k ls (loOf i rest)) (lineLoop 0 ob L rest i stA sA)
         (lineLoop 0 (bqBlock :: ob.map shB) (L + 1) (rest.map shB) (i + 1) stB sB) := by
   intro rest
   induction rest with
   | nil =>
-    intro _ i _ stA stB k ls p sA sB h _ _ hcur _ _ _
+    intro _ i _ stA stB k ls p sA sB h _ _ hcur _ _ _ hcg
     simp only [List.map_nil]
     unfold lineLoop
-    exact S2.pure ⟨rfl, ⟨p, h⟩, fun hfl => ⟨i, Int.le_refl _, hcur hfl⟩⟩
+    exact S2.pure ⟨rfl, ⟨p, h⟩, (fun hfl => ⟨i, Int.le_refl _, hcur hfl⟩), ⟨i, Int.le_refl _, hcg⟩⟩
   | cons be rest ih =>
-    intro hsub i hi stA stB k ls p sA sB h hop hL hcur hi0 pre hm
+    intro hsub i hi stA stB k ls p sA sB h hop hL hcur hi0 pre hm hcg
     have hbe : be ∈ ob := hsub be (by simp)
     have ih' := ih (fun b hb => hsub b (by simp [hb])) (i + 1) (by omega)
     obtain ⟨hal, hn0⟩ : al be.bp = true ∧ be.node ≠ 0 := by
       have := h.a.opened be (hop ▸ hbe); exact this
     simp only [List.map_cons]
     unfold lineLoop
-    refine S2.bind (S2.andL (peekLine_s2 h.s) (F := fun _ sA' => sA'.pc = sA.pc ∧ sA'.nodes = sA.nodes) (fun a sA' e => ?_))
+    refine S2.bind (S2.andR (S2.andL (peekLine_s2 h.s) (F := fun _ sA' => sA'.pc = sA.pc ∧ sA'.nodes = sA.nodes) (fun a sA' e => ?_))
+      (G := fun _ sB' => sB'.nodes = sB.nodes) (fun b sB' e => ?_))
       (fun a b sA1 sB1 hq => ?_)
     · unfold GM.Blocks.peekLine at e
       cases hp : sA.r.peekLine with
       | error x => rw [hp] at e; cases e
       | ok y => rw [hp] at e; cases e; exact ⟨rfl, rfl⟩
-    obtain ⟨⟨ea, eb, h1⟩, hpc1, hnd1⟩ := hq
+    · unfold GM.Blocks.peekLine at e
+      cases hp : sB.r.peekLine with
+      | error x => rw [hp] at e; cases e
+      | ok y => rw [hp] at e; cases e; rfl
+    obtain ⟨⟨⟨ea, eb, h1⟩, hpc1, hnd1⟩, hndB1⟩ := hq
     subst ea eb
     simp only
-    have hd1 : DR src al k ls p sA1 sB1 := ⟨h1, by rw [hpc1, hnd1]; exact h.a⟩
+    have hfe1 : FEc al sA1.nodes sB1.nodes := by
+      rw [hnd1, hndB1]; exact h.f
+    have hd1 : DR src al k ls p sA1 sB1 := ⟨h1, by rw [hpc1, hnd1]; exact h.a, hfe1⟩
     have hm1 : Sh.MidA src ob pre (be :: rest) i sA1 := by
       have e : sA1 = { sA with r := sA1.r } := by
         cases sA1; cases sA; simp only at hpc1 hnd1; subst hpc1 hnd1; rfl
@@ -293,12 +313,15 @@ theorem lineLoop_sim {src al} (ps : PS src al) (fr : Frames al) (ot : OT src) (n
     | some line =>
       simp only
       have hplt := viewA_some_lt hv
-      refine S2.bind (S2.andL (position_s2 h1) (F := fun _ sA' => sA' = sA1) (fun a sA' e => ?_))
+      refine S2.bind (S2.andR (S2.andL (position_s2 h1) (F := fun _ sA' => sA' = sA1) (fun a sA' e => ?_))
+        (G := fun _ sB' => sB' = sB1) (fun b sB' e => ?_))
         (fun a b sA2 sB2 hq => ?_)
       · unfold GM.Blocks.position at e; cases e; rfl
-      obtain ⟨⟨ea, eb, h2⟩, e2⟩ := hq
+      · unfold GM.Blocks.position at e; cases e; rfl
+      obtain ⟨⟨⟨ea, eb, h2⟩, e2⟩, e2B⟩ := hq
       subst ea eb
       subst e2
+      subst e2B
       simp only
       refine S2.bind (getNode_s2' h2 be.node) (fun na nb sA3 sB3 hq => ?_)
       obtain ⟨hab, e1, e2⟩ := hq
@@ -308,7 +331,7 @@ theorem lineLoop_sim {src al} (ps : PS src al) (fr : Frames al) (ot : OT src) (n
       simp only [Bool.false_eq_true, if_false] at hk
       simp only [shB]
       rw [hk]
-      have hd2 : DR src al k ls p sA2 sB2 := ⟨h2, hd1.a⟩
+      have hd2 : DR src al k ls p sA2 sB2 := ⟨h2, hd1.a, hd1.f⟩
       have hbl : FL src → i = 0 → isBlank line = false := by
         intro hfl h0
         have hpl := hi0 h0
@@ -322,24 +345,31 @@ theorem lineLoop_sim {src al} (ps : PS src al) (fr : Frames al) (ot : OT src) (n
       have fall : ∀ {p'} {sA' sB' : St} (stA' stB' : List LineStat), DR src al k ls p' sA' sB' →
           (FL src → isBlankLine ((k : Int) - 1) (i + 1) stB' = isBlankLine ((k : Int) - 1) i stA') →
           (FL src → ∃ j, i + 1 ≤ j ∧ CUR (k : Int) j stA' stB') →
+          (∃ j, i + 1 ≤ j ∧ CURG (k : Int) j stA' stB') → sA'.pc.opened = ob →
+          (isBlankLine ((k : Int) - 1) (i + 1) stB' = isBlankLine ((k : Int) - 1) i stA') →
           S2 (LLRel src al k ls (i + 1)) (llFall 0 ob L i (isBlankLine ((k : Int) - 1) i stA') stA' sA')
             (llFall 0 (bqBlock :: ob.map shB) (L + 1) (i + 1) (isBlankLine ((k : Int) - 1) (i + 1) stB') stB' sB') :=
-        fun stA' stB' hd hb hst => llFall_sim ps fr ot ns tr ob L i hi _ _ stA' stB' hd.loose hb (i + 1) hst
+        fun stA' stB' hd hb hst hstg hopd hbe => llFall_sim ps fr ot ns tr ob L i hi _ _ stA' stB' hd.loose hb (i + 1) hst hstg
+          (fun b hb' => (hd.a.pk b (hopd ▸ hb')).1) (fun _ => hbe)
+      have hqg := curG_query hi hcg (isBlank line)
       by_cases hkp : (na.kind != Kind.paragraph) = true
       · rw [if_pos hkp, if_pos hkp]
         have hp : p < src.length := h.s.r.inl.lt_iff.mpr hplt
         have hnsp := ns k ls p h.s.r.inl hp
-        refine S2.bind (S2.andL (ps.cont be.bp hal k ls p be.node sA2 sB2 h2 hn0 hd2.a hp hnsp
+        refine S2.bind (S2.andL (S2.withFE h2 hd2.f (ps.cont be.bp hal k ls p be.node sA2 sB2 h2 hn0 hd2.a hp hnsp
             (fun hbi hnb => listItemContPre_of_mid_sr h2 hm1 hbi hp hnb))
+            (fun _ _ _ e => ⟨bpn_of_bpContinue be.bp be.node e, chn_of_bpContinue be.bp be.node e⟩)
+            (fun _ _ _ e => bpn_of_bpContinue be.bp (be.node + 1) e))
           (F := fun st' sA' => AInv al sA'.pc sA'.nodes ∧ sA'.pc.opened = sA2.pc.opened ∧
             (st'.cont = true → st'.hasChildren = true → Sh.MidA src ob (pre ++ [be]) rest (i + 1) sA') ∧
             (st'.cont = true → st'.hasChildren = false → rest = []))
           (fun _ sA' e => ⟨fr.cont _ _ _ _ _ e hal hn0 hd2.a, fr.contOpened _ _ _ _ _ e,
             (fun hc hch => mid_step hm1 h2.r.a hp e hc hch), (fun hc hch => mid_leaf_last hm1 e hc hch)⟩))
           (fun sa sb sA4 sB4 hq => ?_)
-        obtain ⟨⟨hs, p', h4⟩, ha4, hop4, hmid4, hleaf4⟩ := hq
+        obtain ⟨⟨⟨hs, p', h4⟩, hfe4⟩, ha4, hop4, hmid4, hleaf4⟩ := hq
         rw [hs]
-        have hd4 : DR src al k ls p' sA4 sB4 := ⟨h4, ha4⟩
+        have hd4 : DR src al k ls p' sA4 sB4 := ⟨h4, ha4, hfe4⟩
+        have hopd4 : sA4.pc.opened = ob := by rw [hop4, hop1]
         by_cases hcont : sa.cont = true
         · rw [if_pos hcont, if_pos hcont]
           have hcond : (sa.hasChildren && i + 1 == L + 1) = (sa.hasChildren && i == L) := by
@@ -347,27 +377,30 @@ theorem lineLoop_sim {src al} (ps : PS src al) (fr : Frames al) (ot : OT src) (n
           rw [hcond]
           by_cases hch : (sa.hasChildren && i == L) = true
           · rw [if_pos hch, if_pos hch]
-            refine S2.bind (openBlocks_sim ps fr ot ns tr _ _ (fun hfl => (hqq hfl).1) be.node hd4.loose)
+            refine S2.bind (openBlocks_sim ps fr ot ns tr _ _ (fun hfl => (hqq hfl).1) be.node hd4.loose
+              ((hd4.a.pk be (hopd4 ▸ hbe)).1) (fun _ => .inl hqg.1))
               (fun ra rb sA5 sB5 hq => ?_)
             obtain ⟨_, ⟨p'', h5⟩, _⟩ := hq
-            exact S2.pure ⟨rfl, ⟨p'', h5⟩, fun hfl => ⟨i + 1, Int.le_refl _, (hqq hfl).2⟩⟩
+            exact S2.pure ⟨rfl, ⟨p'', h5⟩, (fun hfl => ⟨i + 1, Int.le_refl _, (hqq hfl).2⟩), ⟨i + 1, Int.le_refl _, hqg.2⟩⟩
           · rw [if_neg hch, if_neg hch]
             simp only [Bool.not_false, if_true]
             cases hhc : sa.hasChildren with
             | true =>
               exact S2.mono (ih' _ _ hd4 (by rw [hop4, hop1]) hL (fun hfl => (hqq hfl).2) (fun h0 => by omega) _
-                (hmid4 hcont hhc)) (fun _ _ _ _ hh => LLRel.mono (loOf_ge _ _) hh)
+                (hmid4 hcont hhc) hqg.2) (fun _ _ _ _ hh => LLRel.mono (loOf_ge _ _) hh)
             | false =>
               have hnil := hleaf4 hcont hhc
               subst hnil
               simp only [List.map_nil]
               unfold lineLoop
-              exact S2.pure ⟨rfl, ⟨p', hd4⟩, fun hfl => ⟨i + 1, Int.le_refl _, (hqq hfl).2⟩⟩
+              exact S2.pure ⟨rfl, ⟨p', hd4⟩, (fun hfl => ⟨i + 1, Int.le_refl _, (hqq hfl).2⟩), ⟨i + 1, Int.le_refl _, hqg.2⟩⟩
         · rw [if_neg hcont, if_neg hcont]
           simp only [Bool.not_true, Bool.false_eq_true, if_false]
           exact fall _ _ hd4 (fun hfl => (hqq hfl).1) (fun hfl => ⟨i + 1, Int.le_refl _, (hqq hfl).2⟩)
+            ⟨i + 1, Int.le_refl _, hqg.2⟩ hopd4 hqg.1
       · rw [if_neg hkp, if_neg hkp]
         simp only [Bool.not_true, Bool.false_eq_true, if_false]
         exact fall _ _ hd2 (fun hfl => (hqq hfl).1) (fun hfl => ⟨i + 1, Int.le_refl _, (hqq hfl).2⟩)
+          ⟨i + 1, Int.le_refl _, hqg.2⟩ hop1 hqg.1
 
 end GM.Blocks
